@@ -8,9 +8,11 @@ import (
 	"fmt"
 	mrand "math/rand"
 	"reflect"
+	"strconv"
 	"strings"
 	"sync"
 	"testing"
+	"time"
 
 	"github.com/elementsproject/peerswap/messages"
 	"github.com/elementsproject/peerswap/swap"
@@ -37,7 +39,7 @@ func historyMix(r *Run, reps int, f func(h *lcHist)) {
 	var list []hm
 	for _, ch := range []string{"btc", "lbtc"} {
 		for _, ty := range []string{"out", "in"} {
-			for _, v := range []string{"happy", "payfail", "csv", "cancel", "claimfail", "openfail", "heightfail"} {
+			for _, v := range []string{"happy", "payfail", "csv", "cancel", "claimfail", "openfail", "heightfail", "coopsendfail", "anysendfail", "cancel-after-announcement-coopsendfail"} {
 				list = append(list, hm{ch, ty, v})
 			}
 		}
@@ -64,6 +66,63 @@ func historyMix(r *Run, reps int, f func(h *lcHist)) {
 						return fmt.Errorf("injected")
 					}
 					return nil
+				}
+			case "coopsendfail":
+				// the claim payment fails, the taker wants to close cooperatively, and the first send of its
+				// coop_close fails (peer briefly unreachable): whatever it sends next must not carry the key
+				h.p.w.LN.Script = func(payer string, inv *sim.Invoice, n int) sim.Outcome {
+					if inv.Type == 1 {
+						return sim.OutFail
+					}
+					return sim.OutSettle
+				}
+				tk := h.p.taker()
+				first := true
+				tk.Fault = func(op string) error {
+					if op == fmt.Sprintf("msg.send:%d", ref.MsgCoopClose) && first {
+						first = false
+						return fmt.Errorf("injected: peer is not connected")
+					}
+					return nil
+				}
+			case "cancel-after-announcement-coopsendfail":
+				// the maker cancels right after its announcement (the taker waits for the confirmation); the taker
+				// answers with coop_close, whose first send fails
+				tk, mk := h.p.taker(), h.p.maker()
+				injected := false
+				tk.OnCrossing = func(k int64, op string) {
+					if strings.HasSuffix(op, ".watchconf") && !injected {
+						injected = true
+						if id, err := swap.ParseSwapIdFromString(h.p.id); err == nil {
+							payload := mustJSON(&swap.CancelMessage{SwapId: id, Message: "maker gives up"})
+							done := make(chan struct{})
+							go func() { h.p.w.InjectMsg(mk.ID, tk.Name, ref.MsgCancel, payload); close(done) }()
+							select {
+							case <-done:
+							case <-time.After(200 * time.Millisecond):
+							}
+						}
+					}
+				}
+				first := true
+				tk.Fault = func(op string) error {
+					if op == fmt.Sprintf("msg.send:%d", ref.MsgCoopClose) && first {
+						first = false
+						return fmt.Errorf("injected: peer is not connected")
+					}
+					return nil
+				}
+			case "anysendfail":
+				// every node's first send of each message type fails once
+				for _, n := range []*sim.Node{h.p.A, h.p.B} {
+					failed := map[string]bool{}
+					n.Fault = func(op string) error {
+						if strings.HasPrefix(op, "msg.send:") && !failed[op] {
+							failed[op] = true
+							return fmt.Errorf("injected: peer is not connected")
+						}
+						return nil
+					}
 				}
 			case "openfail":
 				// the maker's wallet cannot fund the opening transaction: the swap is cancelled with an error text
@@ -184,6 +243,15 @@ func c21Junk(rng *mrand.Rand, seedPayloads [][]byte, liveID string) (string, []b
 		head := fmt.Sprintf(`{"swap_id":%q,"message":"`, liveID)
 		pad := size - len(head) - 2
 		return "a45f", []byte(head + strings.Repeat("x", pad) + `"}`), "valid-type/oversized-wellformed-cancel"
+	}
+	if liveID != "" && rng.Intn(8) == 0 {
+		// a well-formed cancel for the live swap under a type number next to a peerswap type (even numbers are not
+		// peerswap messages), or under the right type but followed by trailing bytes (not a JSON payload)
+		cancel := fmt.Sprintf(`{"swap_id":%q,"message":"x"}`, liveID)
+		if rng.Intn(2) == 0 {
+			return pick(rng, "a460", "a45e", "a462", "a454"), []byte(cancel), "even-neighbour-type/wellformed-cancel"
+		}
+		return "a45f", []byte(cancel + pick(rng, "}", " garbage", "\x00", cancel, "]")), "valid-type/wellformed-cancel-with-trailing-bytes"
 	}
 	typeStr := pick(rng, "a455", "a457", "a459", "a45b", "a45d", "a45f", "a461")
 	kind := "valid-type"
@@ -322,15 +390,16 @@ func TestC21(t *testing.T) {
 			mu.Lock()
 			ts, payload, kind := c21Junk(lr, harvested, p.id)
 			mu.Unlock()
-			// is it accidentally a proper message? (then it is not junk)
-			if mt, err := messages.PeerswapCustomMessageType(ts); err == nil && len(payload) <= 100*1024 {
+			// is it accidentally a proper message? (then it is not junk) — decided by the protocol numbering itself (the
+			// type string is a hexadecimal number, odd, 42069..42085), not by the code under test
+			if mt, err := strconv.ParseInt(ts, 16, 64); err == nil && mt%2 == 1 && mt >= 42069 && mt <= 42085 && len(payload) <= 100*1024 {
 				if mk, ok := docTypes[int(mt)]; ok {
 					v := mk()
-					dec := json.NewDecoder(bytes.NewReader(payload))
-					// A payload that JSON-decodes into the message of its type is a (possibly invalid)
-					// protocol message, not junk: invalid requests are answered with cancel (C11), so
-					// only undecodable payloads, `null`, foreign types and oversized payloads are judged here.
-					if dec.Decode(v) == nil && strings.TrimSpace(string(payload)) != "null" {
+					// A payload that JSON-decodes (as a whole: json.Unmarshal rejects trailing data) into the message
+					// of its type is a (possibly invalid) protocol message, not junk: invalid requests are answered
+					// with cancel (C11), so only undecodable payloads, `null`, foreign types and oversized payloads
+					// are judged here.
+					if json.Unmarshal(payload, v) == nil && strings.TrimSpace(string(payload)) != "null" {
 						r.Count("junk_skipped_because_decodable", 1)
 						continue
 					}
@@ -406,11 +475,22 @@ func (s c23Secret) forms() [][]byte {
 	for i := range s.raw {
 		rev[i] = s.raw[len(s.raw)-1-i]
 	}
-	return [][]byte{s.raw, []byte(h), []byte(strings.ToUpper(h)), []byte(base64.StdEncoding.EncodeToString(s.raw)), []byte(base64.RawURLEncoding.EncodeToString(s.raw)), []byte(hex.EncodeToString(rev))}
+	// what fmt prints for a byte slice: "[246 156 3 ...]" (%v), "[f6 9c 03 ...]" (% x), and the JSON array of numbers
+	dec := strings.Trim(fmt.Sprint(s.raw), "[]")
+	spaced := fmt.Sprintf("% x", s.raw)
+	return [][]byte{s.raw, []byte(h), []byte(strings.ToUpper(h)), []byte(base64.StdEncoding.EncodeToString(s.raw)), []byte(base64.RawURLEncoding.EncodeToString(s.raw)), []byte(hex.EncodeToString(rev)),
+		[]byte(dec), []byte(strings.ReplaceAll(dec, " ", ",")), []byte(spaced)}
 }
 
 func c23Judge(r *Run, h *lcHist) {
-	w := h.p.w
+	role := map[string]string{} // node -> maker|taker
+	role[h.p.maker().Name], role[h.p.taker().Name] = "maker", "taker"
+	c23Scan(r, h.p.w, role, []*sim.Node{h.p.A, h.p.B}, h.c.String())
+	r.Seen(fmt.Sprintf("%s/%s/%s/final=%s+%s", h.c.chain, h.c.typ, h.c.variant, h.p.state(h.p.A), h.p.state(h.p.B)))
+}
+
+// c23Scan scans every message sent in world w for the secrets of its sender.
+func c23Scan(r *Run, w *sim.World, role map[string]string, nodes []*sim.Node, caseDesc string) {
 	var secrets []c23Secret
 	seen := map[string]bool{}
 	add := func(kind, owner, swapID string, raw []byte) {
@@ -423,8 +503,6 @@ func c23Judge(r *Run, h *lcHist) {
 			secrets = append(secrets, c23Secret{kind, owner, swapID, raw})
 		}
 	}
-	role := map[string]string{} // node -> maker|taker
-	role[h.p.maker().Name], role[h.p.taker().Name] = "maker", "taker"
 	evs := w.Events()
 	for _, e := range evs {
 		switch e.Kind {
@@ -444,7 +522,7 @@ func c23Judge(r *Run, h *lcHist) {
 			}
 		}
 	}
-	for _, n := range []*sim.Node{h.p.A, h.p.B} {
+	for _, n := range nodes {
 		for _, a := range n.LbtcW.Addrs {
 			add("wallet-blinding-key", n.Name, "", a.BlindKey.Serialize())
 		}
@@ -474,13 +552,12 @@ func c23Judge(r *Run, h *lcHist) {
 					}
 				}
 				r.Violate("no-secret-in-messages", fmt.Sprintf("C23|%s-in-message-type-%d|form=%d", s.kind, m.Type, fi),
-					fmt.Sprintf("node %s sent its %s inside a message of type %d; case %s; payload %.300s", e.Node, s.kind, m.Type, h.c, m.Payload), nil)
+					fmt.Sprintf("node %s sent its %s inside a message of type %d; case %s; payload %.300s", e.Node, s.kind, m.Type, caseDesc, m.Payload), nil)
 			}
 		}
 	}
 	r.Count("messages_scanned", msgs)
 	r.Count("secrets_tracked", len(secrets))
-	r.Seen(fmt.Sprintf("%s/%s/%s/final=%s+%s", h.c.chain, h.c.typ, h.c.variant, h.p.state(h.p.A), h.p.state(h.p.B)))
 }
 
 func TestC23(t *testing.T) {
@@ -490,6 +567,39 @@ func TestC23(t *testing.T) {
 	r.Assumptions = []string{"Bitcoin wallet keys live in the simulated lightningd/bitcoind wallet and never enter the peerswap process", "logs are not scanned (the property speaks of messages)"}
 	historyMix(r, r.N(3, 60), func(h *lcHist) { r.Eval(); c23Judge(r, h) })
 	lcSweep(r, []string{"btc", "lbtc"}, "happy", false, nil, func(h *lcHist) { c23Judge(r, h) })
+	// adversarial counterparties: the C12 histories (agreements with absurd premiums, fee invoices of any size, ...)
+	// make the real initiator refuse with error texts; those messages are scanned as well
+	{
+		rng := mrand.New(mrand.NewSource(r.Seed + 23))
+		var cases []c12Case
+		for i := 0; i < r.N(120, 2000); i++ {
+			amount := pick(rng, uint64(100_000), 250_000, 1_000_000)
+			prem := pick(rng, int64(-1<<63), -int64(amount)-1, -int64(amount), -1, 0, 1<<63-1, int64(rng.Intn(5000)), 1<<40)
+			c := c12Case{chain: pick(rng, "btc", "lbtc"), role: pick(rng, "out-initiator", "in-initiator"), premium: prem, limit: pick(rng, int64(0), 1000, 100_000), amount: amount,
+				rich: rng.Intn(3) == 0, feeEst: "normal", feeSat: pick(rng, uint64(0), 700, 1<<40)}
+			cases = append(cases, c)
+		}
+		var smu sync.Mutex
+		c12WorldDone = func(w *sim.World, c c12Case) {
+			smu.Lock()
+			defer smu.Unlock()
+			role := map[string]string{"alice": "maker"}
+			if c.role == "out-initiator" {
+				role["alice"] = "taker"
+			}
+			var nodes []*sim.Node
+			for _, n := range w.Nodes {
+				nodes = append(nodes, n)
+			}
+			r.Eval()
+			c23Scan(r, w, role, nodes, fmt.Sprintf("adversarial responder %+v", c))
+		}
+		// the C12 judgments of these histories are not C23's business: they go to a run that is never finished
+		sink := &Run{ID: "C12-as-workload", Tier: r.Tier, Seed: r.Seed, start: time.Now(), distinct: map[string]int{}, Extra: map[string]any{}}
+		parallelDo(len(cases), 12, func(i int) { runC12(sink, r.Seed*7121+int64(i)+1, cases[i]) })
+		c12WorldDone = nil
+		r.Extra["adversarial_histories_scanned"] = len(cases)
+	}
 	ms, _ := r.Extra["messages_scanned"].(int)
 	cc, _ := r.Extra["allowed_coop_close_disclosures"].(int)
 	r.Sample(map[string]any{"scan": "payload bytes vs {raw, hex, HEX, base64, base64url, reversed hex} of each secret of the sender"})
